@@ -31,7 +31,7 @@ ASSUMPTIONS = ['entry ids in the directory are distinct']
 
 MENU = [
     # name, eid, sev, flags, creator, subsys, commit, comp, sections
-    ('m_serv.pel', 0x50000008, 0x40, 0xA000, 'O', 0x8D, '2024010203040506', 0x1000, ['PS', 'UD', 'LP', 'UDx']),
+    ('m_serv.pel', 0x50000008, 0x40, 0xA000, 'O', 0x8D, '2024010203040506', 0x1000, ['PS', 'UD', 'LP', 'UDx', 'UDs']),
     ('a_hidden.pel', 0x50000007, 0x40, 0x6000, 'B', 0x10, '2024020304050607', 0x2000, ['PS']),
     ('.Z_info', 0x50000001, 0x00, 0x0000, 'O', 0x20, '2024030405060708', 0x3000, ['PS']),
     ('B_infosa.txt', 0x50000006, 0x00, 0x8000, 'H', 0x30, '2024040506070809', 0x4142, ['PS']),
@@ -54,6 +54,10 @@ def pel_bytes(i):
             sections.append({'t': 'PS', 'ascii': ('BD%02X%04X' % (0x8D + i, 0x1000 + i)).ljust(32)})
         elif t == 'UD':
             sections.append({'t': 'UD', 'comp': 0x4142, 'payload': bytes([i] * 12).hex()})
+        elif t == 'UDs':
+            # JSON text whose strings hold an escaped unpaired surrogate and non-ASCII characters: it loads, and has to print
+            sections.append({'t': 'UD', 'comp': 0x2000, 'sub': 1,
+                             'payload': b'{"Reporter": "sensor \\ud83d monitor", "Ort": "Z\xc3\xbcrich"}'.hex()})
         elif t == 'UD0':
             sections.append({'t': 'UD', 'comp': 0x4142, 'payload': ''})      # no payload at all, in front of the primary SRC
         elif t == 'PSc':
@@ -123,9 +127,9 @@ def check_combo(d, files, sw, slist, extra, want_x=False):
         ext = extra[extra.index('-e') + 1]
     want = expected(files, sw, slist, ext, rev)
     want_eids = ['0x%08X' % MENU[i][1] for i in want]
-    rn = clidrv.run_main(argv_for(d, '-n', sw, slist, extra))
-    rl = clidrv.run_main(argv_for(d, '-l', sw, slist, extra))
-    ra = clidrv.run_main(argv_for(d, '-a', sw, slist, extra))
+    rn = clidrv.run_main(argv_for(d, '-n', sw, slist, extra), isolate=True)
+    rl = clidrv.run_main(argv_for(d, '-l', sw, slist, extra), isolate=True)
+    ra = clidrv.run_main(argv_for(d, '-a', sw, slist, extra), isolate=True)
     trans = 3
     for nm, r in (('-n', rn), ('-l', rl), ('-a', ra)):
         if r.status != 0 or r.exc:
@@ -257,7 +261,7 @@ def _subproc(res):
         for mode, sw, slist, extra in combos:
             argv = argv_for(d, mode, sw, slist, extra)
             rc, so, se = clidrv.run_subprocess(argv)
-            r = clidrv.run_main(argv)
+            r = clidrv.run_main(argv, isolate=True)
             trans += 1
             case = {'subprocess': True, 'argv': argv[2:]}
             res.case(nontrivial_key=json.dumps(case), outcome='subproc:%s' % rc)
